@@ -176,7 +176,12 @@ def r4(c):
         detail = "accumulated with update() in a loop over new"
     else:
         v = defs[-1].value if defs else None
-        if isinstance(v, (ast.SetComp,)) or (isinstance(v, ast.Call) and call_name(v) in ("set", "set.union", "frozenset") and v.args):
+        keyed = [x for x in (pv.origin_calls(v, through_calls=True) if v is not None else [])
+                 if call_name(x) in ("dict", "odict", "OrderedDict") and x.args and isinstance(x.args[0], (ast.GeneratorExp, ast.ListComp))]
+        if keyed:
+            ok = False
+            detail = f"`{norm(keyed[0])[:80]}` keys the parsed lines by their prefix: only the last `vlan batch` line survives"
+        elif isinstance(v, (ast.SetComp,)) or (isinstance(v, ast.Call) and call_name(v) in ("set", "set.union", "frozenset") and v.args):
             # a union comprehension over all lines is fine; a dict keyed by prefix is not
             ok = not any(isinstance(x, ast.Call) and call_name(x) == "dict" for x in ast.walk(v))
             detail = "built by a set expression"
